@@ -8,7 +8,8 @@ from harness import tlc, validate, par
 from harness.common import Machinery
 from harness.drivers import host_drv as hd
 
-TREE = {"RunnerPassesTuple": False}
+TREE = {"RunnerPassesTuple": False, "EnvSnapshotCached": False, "RunnerResolvesOnHostPath": False, "MaxRuns": 2}
+CMDC = ["absolute", "bare"]
 ARGC = ["none", "plain", "spaces", "quotes", "unicode", "empty", "many"]
 ENVC = ["absent", "empty", "values"]
 TOC = ["absent", "int", "float", "stringNumber"]
@@ -21,33 +22,43 @@ def cases(rng, quick):
         for a in ARGC:
             for en in ENVC:
                 for t in (TOC if not quick else [rng.choice(TOC)]):
-                    out.append({"entry": e, "malformed": "none", "cfg": [{"args": a, "env": en, "timeout": t, "extra": rng.random() < 0.5}]})
+                    for cmd in CMDC:
+                        out.append({"entry": e, "malformed": "none", "cfg": [{"args": a, "env": en, "timeout": t, "cmd": cmd, "extra": rng.random() < 0.5}]})
         for v in range(6):
-            out.append({"entry": e, "malformed": "invalidJson", "variant": v, "cfg": [{"args": "plain", "env": "absent", "timeout": "absent"}]})
+            out.append({"entry": e, "malformed": "invalidJson", "variant": v, "cfg": [{"args": "plain", "env": "absent", "timeout": "absent", "cmd": "absolute"}]})
         for m in ("missingFile", "invalidJson", "unknownServer"):
             for n in (1, 2):
-                out.append({"entry": e, "malformed": m, "cfg": [{"args": rng.choice(ARGC), "env": rng.choice(ENVC), "timeout": rng.choice(TOC)} for _ in range(n)]})
+                out.append({"entry": e, "malformed": m, "cfg": [{"args": rng.choice(ARGC), "env": rng.choice(ENVC), "timeout": rng.choice(TOC), "cmd": rng.choice(CMDC)} for _ in range(n)]})
     # 2..4 servers
     for _ in range(25 if quick else 300):
         n = rng.randrange(2, 5)
         out.append({"entry": rng.choice(["runner", "runner", "cliTest", "loader"]), "malformed": "none",
-                    "cfg": [{"args": rng.choice(ARGC), "env": rng.choice(ENVC), "timeout": rng.choice(TOC), "extra": rng.random() < 0.3} for _ in range(n)]})
+                    "cfg": [{"args": rng.choice(ARGC), "env": rng.choice(ENVC), "timeout": rng.choice(TOC), "cmd": rng.choice(CMDC), "extra": rng.random() < 0.3} for _ in range(n)]})
     return out
 
 
 def check_c20(ctx):
     quick = ctx.tier == "quick"
     ctx.cov["rule"] = ("cases = (entry point, malformed class, 1..4 servers each with an args class {none, plain, spaces, quotes/shell metacharacters, Unicode, empty strings, 40 args}, "
-                       "env class {absent, empty, values incl. empty and non-ASCII values}, timeout class {absent, int, float, string number}, optional extra keys); every single-server "
+                       "env class {absent, empty, values incl. empty and non-ASCII values}, command class {absolute interpreter path, bare name present differently on the configured and on the host PATH}, timeout class {absent, int, float, string number}, optional extra keys); every single-server "
                        "combination per entry point plus seeded multi-server configurations; each runs the real entry point on a generated file with witness children; "
                        "distinct_nontrivial = distinct cases that spawn at least one child")
     ctx.assumptions += ["the command is the running Python interpreter; the witness script path is the first argument and everything after it is the configured argument list under test",
+                        "a server without a configured environment must receive the host's inheritable variables (HOME, LOGNAME, PATH, SHELL, TERM, USER) as they are when it is launched: every case runs under "
+                        "its own LOGNAME/USER values, after one priming env-less launch per host process under different ones",
+                        "a bare command name is resolved on the PATH the child is given: the configured PATH when an environment is configured, the host's otherwise",
                         "env {} is treated like an absent env (the code's `env or default`); variables Python itself adds in the child are ignored",
                         "for the CLI test and the runner a malformed configuration must be a reported failure without any spawn; the documented exception types are judged on the loader"]
     r = tlc.run_tlc("HostLaunch", "mc/HostLaunch.cfg", work=os.path.join(ctx.work, "mc"), timeout=600, coverage=True)
     ctx.add_model_run("mc/HostLaunch.cfg", r)
     if r.invariant_violated:
         print("MODEL-STALE: HostLaunch violates %s" % r.invariant_violated)
+    # the deviations (behaviour before the repair / of realistic drifts) must be rejected by the invariants
+    for cfg, expect in (("mc/HostLaunch_devTuple.cfg", "LaunchesExactlyConfigured"), ("mc/HostLaunch_devSnapshot.cfg", "EnvironmentAtLaunch"), ("mc/HostLaunch_devWhich.cfg", "CommandAsConfigured")):
+        rd = tlc.run_tlc("HostLaunch", cfg, work=os.path.join(ctx.work, "mcdev"), timeout=600)
+        ctx.add_model_run(cfg, rd)
+        if expect not in rd.invariant_violated:
+            raise Machinery("%s: deviation not rejected by %s (vacuous invariant?)" % (cfg, expect))
     for a in ("Load", "Spawn", "Initialize", "Finish"):
         if r.coverage().get(a, (0, 0))[1] == 0:
             raise Machinery("action %s never taken" % a)
